@@ -89,7 +89,7 @@ func (r *Run) runBounded() {
 			res.Failure = "the bounded check did not complete: " + tail(out, 600)
 		}
 		r.bounded = append(r.bounded, res)
-		r.notes[fmt.Sprintf("contract of %s is trusted by the proof; a BOUNDED check of its clauses on the real code stands in (%s) and is not counted as proved", s.Function, bound)] = true
+		r.notes[fmt.Sprintf("contract clauses of %s that are not discharged (`trusted` contract or `trusts` clauses, assumed footprint) are trusted by the proof; a BOUNDED check of all its clauses on the real code stands in (%s) and is not counted as proved", s.Function, bound)] = true
 	}
 }
 
